@@ -80,8 +80,25 @@ class Runner:
         except Exception as e:
             self.viol(f"create-raised:{exc_site(e)}", f"{type(e).__name__}: {e}")
             return
+        # a second dictionary of the same class open at the same time (30 %): no cross-talk between instances
+        sib, sib_model = None, {}
+        if rng.random() < 0.3 and full:
+            try:
+                sib = cls.create(path + "-sibling")
+                acc.count("sequences_with_a_sibling_dict")
+            except Exception as e:
+                self.viol(f"sibling-create-raised:{exc_site(e)}", f"{type(e).__name__}: {e}")
+                return
         try:
             for step in range(nops):
+                if sib is not None and rng.random() < 0.4:
+                    k2, v2 = rng.choice(UNIVERSE), rng.randbytes(3)
+                    self.trace.append(["sibling-set", k2.hex(), v2.hex()])
+                    sib[k2] = v2
+                    sib_model[k2] = v2
+                    if {k: sib[k] for k in list(sib)} != sib_model:
+                        self.viol("sibling-cross-talk", "a second dictionary open at the same time has wrong contents")
+                        raise Fail()
                 ops = ["set", "get", "del", "in", "len", "iter", "getd", "clear", "sync", "set_nonbytes"]
                 w = [24, 16, 10, 8, 5, 6, 8, 2, 4, 6]
                 if full:
@@ -90,6 +107,16 @@ class Runner:
                 op = rng.choices(ops, w)[0]
                 d = self.apply(op, d, model, rng, path)
             # end of sequence
+            if sib is not None:
+                if {k: sib[k] for k in list(sib)} != sib_model:
+                    self.viol("sibling-cross-talk", "the second dictionary was changed by operations on the first")
+                    raise Fail()
+                sib.close()
+                sib = cls.open(path + "-sibling")
+                if {k: sib[k] for k in list(sib)} != sib_model:
+                    self.viol("sibling-cross-talk", "the second dictionary differs after close+open")
+                    raise Fail()
+                sib.close()
             if full:
                 self.trace.append(["final close+open"])
                 d.close()
